@@ -266,6 +266,11 @@ def project(diag, frame, snapshot, rows, maps):
        'noisy': [maps['geo'].get(_key(g), 0) for g in (noisy or [])],
        'outliers': [_date_key(maps, d) for d in (rep['outlier_dates'] or [])],
        'corr_test': bool(rep['corr_test'])}
+  # the report belongs to the caller: it empties / extends the returned lists in place before asking for the data
+  for key in ('noisy_geos', 'outlier_dates'):
+    if isinstance(rep.get(key), list):
+      rep[key].clear()
+      rep[key].append('edited by the caller')
   out = diag.get_data()
   if names['date'] not in out.columns and names['date'] in out.index.names:
     out = out.reset_index(names['date'])
